@@ -88,10 +88,40 @@ def check_one(case, ctx, deep):
 
 
 def plan(tier, seed):
-    return tablecheck.plan(tier, seed, wide=True, tall=(4, 30) if tier == 'quick' else (8, 300), thorough_cells=18)
+    tasks = tablecheck.plan(tier, seed, wide=True, tall=(4, 30) if tier == 'quick' else (8, 300), thorough_cells=18)
+    return [{'kind': 'big-boolean', 'n': 14 if tier == 'quick' else 19}] + tasks
+
+
+def big_boolean(ctx, n):
+    """Every generator on the contranominal scale of size n: exactly the 2**n pairs (S, complement of S), each once."""
+    from concepts import algorithms
+    from vlib import bigcases
+    case = bigcases.contranominal(n)
+    plain = {'family': 'contranominal', 'n': n}
+    ctx.case(plain, True, ['big-boolean'])
+    context = ctx.call('Context()', plain, lib.context_of, case, False)
+    full = (1 << n) - 1
+    for name, make in (('fast_generate_from', algorithms.fast_generate_from), ('fcbo_dual', algorithms.fcbo_dual),
+                       ('iterconcepts', algorithms.iterconcepts)):
+        def drain():
+            seen = set()
+            count = 0
+            for e, i in make(context):
+                e, i = int(e), int(i)
+                if i != full ^ e:
+                    ctx.fail('big/' + name + '/not-a-concept', plain, f'{name} yields extent {e:b} with intent {i:b}')
+                seen.add(e)
+                count += 1
+            return count, len(seen)
+        count, distinct = ctx.call('big/' + name, plain, drain)
+        ctx.check(count == distinct == 1 << n, 'big/' + name + '/count', plain,
+                  lambda: f'{name} yields {count} pairs, {distinct} distinct, want {1 << n}')
 
 
 def run(task, ctx):
+    if task['kind'] == 'big-boolean':
+        ctx.guarded(big_boolean, ctx, task['n'])
+        return
     tablecheck.run(task, ctx, check_one)
 
 
